@@ -169,12 +169,23 @@ type RawConn struct {
 }
 
 func DialRaw(proto, addr string) (*RawConn, error) {
+	return DialRawGated(proto, addr, nil)
+}
+
+// DialRawGated is DialRaw with a reader that does not read anything from the socket until
+// gate is closed (a client that is slow to drain its receive buffer).
+func DialRawGated(proto, addr string, gate chan struct{}) (*RawConn, error) {
 	c, err := net.DialTimeout(proto, addr, 3*time.Second)
 	if err != nil {
 		return nil, err
 	}
 	rcn := &RawConn{C: c, UDP: proto == "udp", done: make(chan struct{})}
-	go rcn.readLoop()
+	go func() {
+		if gate != nil {
+			<-gate
+		}
+		rcn.readLoop()
+	}()
 	return rcn, nil
 }
 
